@@ -345,6 +345,39 @@ func c11Custom(t *testing.T, sc *world.Scenario, out *Outcome) {
 					}
 					okBegin, _ := eval(begin)
 					okNow, after := eval(model)
+					// The contract does not say whether a condition on a key that an earlier operation of
+					// the same batch writes is judged against the stored state or against the batch's own
+					// pending writes (the backend never issues such a batch). For those batches only, the
+					// other reading is admissible as well: every condition against the state before the
+					// batch, effects in order.
+					selfConflict := false
+					seenKey := map[string]bool{}
+					for _, b := range use {
+						if (b.kind == "pine" || b.kind == "cas" || b.kind == "delcur") && seenKey[b.k] {
+							selfConflict = true
+						}
+						seenKey[b.k] = true
+					}
+					evalSnap := func(base map[string]string) bool {
+						for _, b := range use {
+							switch b.kind {
+							case "pine", "cas":
+								if !condHolds(base, b.kind, b.k, b.old) {
+									return false
+								}
+							case "delcur":
+								if cur, ok := base[b.k]; !ok || cur != b.old {
+									return false
+								}
+							}
+						}
+						return true
+					}
+					okBeginSnap, okNowSnap := okBegin, okNow
+					if selfConflict {
+						okBeginSnap, okNowSnap = evalSnap(begin), evalSnap(model)
+						out.probe("batch-condition-on-own-pending-write")
+					}
 					// a key of the batch was modified by someone else while the batch was open:
 					// an optimistic engine may abort it (reported as a failed condition or as an error)
 					touched := false
@@ -375,10 +408,27 @@ func c11Custom(t *testing.T, sc *world.Scenario, out *Outcome) {
 					desc := op.Val
 					switch {
 					case err == nil:
-						if !okNow {
+						if !okNow && !(selfConflict && okNowSnap) {
 							viol("batch-applied-despite-failed-condition", "batch {%s} committed although a condition does not hold (state %v)", desc, model)
-							// follow the engine to keep going
-							_, forced := evalForce(model, use)
+						}
+						if !okNow {
+							// follow the engine: it applied every effect in order
+							forced := map[string]string{}
+							for k, v := range model {
+								forced[k] = v
+							}
+							for _, b := range use {
+								switch b.kind {
+								case "put", "pine", "cas":
+									forced[b.k] = b.v
+								case "del", "delcur":
+									delete(forced, b.k)
+								}
+							}
+							bump(model, forced)
+							for _, b := range use {
+								modCount[b.k]++
+							}
 							model = forced
 						} else {
 							bump(model, after)
@@ -389,12 +439,12 @@ func c11Custom(t *testing.T, sc *world.Scenario, out *Outcome) {
 						}
 						out.probe("batch-applied")
 					case errors.Is(err, storage.ErrCASFailed):
-						if okNow && okBegin && !touched {
+						if okNow && okBegin && okNowSnap && okBeginSnap && !touched {
 							viol("batch-refused-although-conditions-hold", "batch {%s} reported a failed condition although every condition holds (state %v)", desc, model)
 						}
 						out.probe("batch-condition-failed")
 					default:
-						if !okNow || !okBegin {
+						if (!okNow || !okBegin) && (!okNowSnap || !okBeginSnap) {
 							miss := ""
 							for _, b := range use {
 								if b.kind == "cas" {
@@ -578,14 +628,6 @@ func c11Custom(t *testing.T, sc *world.Scenario, out *Outcome) {
 	out.Hash = s.Hash()
 	out.Hazards = s.Hazards
 	out.StateHash = rt.HashStrings([]string{fmt.Sprint(len(model))})
-}
-
-func evalForce(base map[string]string, use interface{}) (bool, map[string]string) {
-	m := map[string]string{}
-	for k, v := range base {
-		m[k] = v
-	}
-	return true, m
 }
 
 func init() {
